@@ -129,7 +129,7 @@ func (e *rgswEnv) subjects() (subs []*subject) {
 		return
 	}
 	subs = append(subs, &subject{Ctor: "rgsw.Encryptor.ShallowCopy", Cfg: tag, Safe: true, Random: true,
-		Scratch: []string{"*.buffQP", "*.Encryptor*.encryptorBuffers", "*.Encryptor*.basisextender*.buffQ", "*.Encryptor*.basisextender*.buffP", "*.Encryptor*.xeSampler", "*.Encryptor*.xsSampler", "*.Encryptor*.uniformSampler"},
+		Scratch: []string{"*.buffQP", "*.Encryptor*.encryptorBuffers", "*.Encryptor*.basisextender*.buffQ", "*.Encryptor*.basisextender*.buffP"},
 		Make:    func() any { return rgsw.NewEncryptor(e.p, e.sk) }, Copy: func(o any) any { return o.(*rgsw.Encryptor).ShallowCopy() }, Work: encWork})
 	return
 }
